@@ -153,6 +153,8 @@ class _LocalDatePatternParser(_IPatternParser[LocalDate]):
             match pattern:
                 # Invariant standard patterns return cached implementations.
                 case "R":
+                    if self.__template_value.calendar != CalendarSystem.iso:
+                        return parse_no_standard_expansion("uuuu'-'MM'-'dd")
                     from pyoda_time.text import LocalDatePattern
 
                     return LocalDatePattern._Patterns._iso_pattern_impl
